@@ -391,7 +391,21 @@ class Design:
                     elif pw.kind == "output":
                         self.cells.append((f"{sp}$out{pname}", "$connect", {}, {"L": outer, "R": inner}))
                     else:
-                        raise Unsupported("inout port on a submodule")
+                        # inout: the pad is driven from inside when something in the submodule drives the port wire
+                        # (a $tribuf), and only observed otherwise
+                        driven_inside = False
+                        for (cn, ck, cp, cports) in self.cells:
+                            if not cn.startswith(sp):
+                                continue
+                            outs = [cports["L"]] if ck == "$connect" else [cports[o] for o in self.OUT_PORTS.get(ck, ["\\Y"]) if o in cports] \
+                                if ck not in ("$process", "$meminit_v2", "$memwr_v2") else []
+                            for sp_ in outs:
+                                if any(wb[0] == sp + pname for wb in self._lhs_bits(sp_)):
+                                    driven_inside = True
+                        if driven_inside:
+                            self.cells.append((f"{sp}$io{pname}", "$connect", {}, {"L": outer, "R": inner}))
+                        else:
+                            self.cells.append((f"{sp}$io{pname}", "$connect", {}, {"L": inner, "R": outer}))
             else:
                 ports = {n: self._spec(prefix, s, mod) for n, s in c.ports.items()}
                 params = dict(c.params)
